@@ -372,6 +372,13 @@ func (s *store) Batch(operations []storage.Operation) error {
 		return errors.New("batch requires at least one operation")
 	}
 
+	// Validate all keys first so that an invalid batch is rejected as a whole instead of being applied in part.
+	for _, operation := range operations {
+		if operation.Key == "" {
+			return errors.New("key cannot be blank")
+		}
+	}
+
 	for _, operation := range operations {
 		if operation.Value == nil {
 			err := s.Delete(operation.Key)
